@@ -670,6 +670,10 @@ def validate(R, b, v, bs, sk, sp, cl):
                 good = True
     if not good:
         R.bad("C11.VALIDATE", body, "what validate returns is not what the call returns", b.span)
+    # no success leaves the function without having gone through validate
+    for kind, bb, term, op in rets:
+        if kind == "ok":
+            R.bad("C11.VALIDATE", body, "a value can be returned without having been validated", b.span)
     else:
         R.sample("C11", {"type": sp["name"], "validate": want["fn"], "receives": "payload of the container's own `?`"})
 
